@@ -66,7 +66,7 @@ type GenSpec struct {
 	Script map[string]FragSpec `json:"script,omitempty"` // key: "<pkg index>/<object key>"
 }
 
-// Decl kinds: func | mapvar (map[string]int) | mapvar:<int|uint8|bool|month|rune|float64>:<entries> | id:<path>.<Name> | bad
+// Decl kinds: func | mapval:<xy|xyz|lv|v1|mix|ptr|nest>:<entries> (fixmap.go) | mapvar (map[string]int) | mapvar:<int|uint8|bool|month|rune|float64>:<entries> | id:<path>.<Name> | bad
 type FragSpec struct {
 	Outcome string   `json:"outcome"` // render | skip | ignore | err
 	Decls   []string `json:"decls,omitempty"`
@@ -359,6 +359,10 @@ func importsOf(ds []Decl) []string {
 		}
 		if strings.HasPrefix(d.Kind, "mapvar:month:") { // map[time.Month]string: the key type is named through the import table
 			out = append(out, "time")
+		}
+		if strings.HasPrefix(d.Kind, "mapval:") { // map[..]holder.Rule: the value type and what the entries mention
+			_, imps := fixMap(d.Kind)
+			out = append(out, imps...)
 		}
 	}
 	return out
